@@ -168,6 +168,26 @@ func confusions() []confusion {
 	}
 }
 
+// pathConfusions are string values for `path` nodes: escape characters at the places where the path
+// parser and the rule index look one character ahead (lone and trailing backslashes, escapes at the
+// very end, escapes of characters that need none).
+func pathConfusions(marker string) []confusion {
+	return []confusion{
+		{"path-only-backslash", `\`},
+		{"path-slash-backslash", `/\`},
+		{"path-segment-lone-backslash", marker + `/\`},
+		{"path-segment-lone-backslash-inner", marker + `/\/x`},
+		{"path-trailing-backslash", marker + `\`},
+		{"path-double-backslash", marker + `/\\`},
+		{"path-triple-backslash", marker + `/\\\`},
+		{"path-escaped-letter", marker + `/\x`},
+		{"path-escaped-colon-at-end", marker + `/\:`},
+		{"path-escaped-star-at-end", marker + `/\*`},
+		{"path-wildcard-name-trailing-backslash", marker + `/:x\`},
+		{"path-free-wildcard-trailing-backslash", marker + `/**\`},
+	}
+}
+
 func toYAML(v any) []byte {
 	b, err := yaml.Marshal(v)
 	if err != nil {
@@ -196,8 +216,19 @@ func (g *gen) rulesLane() []inputSpec {
 	allPaths(ruleDoc("/a/x"), nil, &paths)
 	for _, p := range paths {
 		// YAML only: a mapping whose keys are not strings decodes into map[any]any instead of map[string]any
-		for ci, c := range append(confusions(), confusion{"map-non-string-keys", map[any]any{1: "x", true: []any{1}, "s": map[any]any{2.5: nil}}}) {
+		cs := append(confusions(), confusion{"map-non-string-keys", map[any]any{1: "x", true: []any{1}, "s": map[any]any{2.5: nil}}})
+		n := len(cs)
+		if p[len(p)-1].key == "path" {
+			n += len(pathConfusions(""))
+		}
+		for ci := 0; ci < n; ci++ {
 			m := marker()
+			var c confusion
+			if ci < len(cs) {
+				c = cs[ci]
+			} else {
+				c = pathConfusions(m)[ci-len(cs)]
+			}
 			doc := setPath(deepCopy(ruleDoc(m)), p, deepCopy(c.val))
 			var data []byte
 			if (len(p)+ci)%5 == 0 {
@@ -227,8 +258,22 @@ func (g *gen) rulesLane() []inputSpec {
 	valid := string(toYAML(ruleDoc(m)))
 	crafted := []struct{ name, doc string }{
 		{"only-comment", "# nothing here\n"},
+		{"only-whitespace", " \n  \n\r\n"},
+		{"all-rules-commented-out", "# " + strings.ReplaceAll(strings.TrimSuffix(valid, "\n"), "\n", "\n# ") + "\n"},
 		{"only-document-start", "---\n"},
+		{"only-document-start-no-newline", "---"},
+		{"document-start-and-comment-header", "---\n# rule set of team a\n# rolled out by the pipeline\n"},
+		{"document-start-with-comment", "--- # rule set of team a\n"},
+		{"comment-then-document-start", "# rule set of team a\n---\n"},
+		{"two-document-starts", "---\n---\n"},
+		{"document-start-and-end", "---\n...\n"},
 		{"null-document", "null\n"},
+		{"tilde-document", "~\n"},
+		{"empty-map-document", "{}\n"},
+		{"empty-map-after-document-start", "--- {}\n"},
+		{"empty-list-document", "[]\n"},
+		{"empty-string-document", "\"\"\n"},
+		{"version-only", "---\n# rule set of team a\nversion: \"1alpha4\"\n"},
 		{"scalar-document", "just a string\n"},
 		{"list-document", "- a\n- b\n"},
 		{"number-document", "42\n"},
@@ -324,6 +369,11 @@ func (g *gen) rulesLane() []inputSpec {
 	for _, c := range crafted {
 		addRaw("crafted", c.name, "/a/q", []byte(c.doc))
 	}
+	// path expressions with escape characters at the edges, one otherwise valid document per expression
+	for i, pe := range pathEscapes {
+		addRaw("path-escape", fmt.Sprintf("path-escape-%02d:%s", i, pe), "/a/q",
+			[]byte("version: \"1alpha4\"\nrules:\n- id: x\n  match:\n    routes:\n      - path: /a/q\n      - path: '"+pe+"'\n  execute: [{authenticator: anon}, {finalizer: noop}]\n"))
+	}
 
 	// truncations (ascending: the file as seen while it is being written) and bit flips of a valid file
 	m = marker()
@@ -334,12 +384,40 @@ func (g *gen) rulesLane() []inputSpec {
 	g.corpus["rules:valid-json"] = jb2
 	g.sweep(&list, kRules, "rules:valid-json", 40, map[string]string{"marker": m2}, true)
 	g.flips(&list, kRules, "rules:valid", g.pick(40, 600), map[string]string{"marker": m})
+	// a hand-written file: document start marker, comment header, and an escaped wildcard at the very end
+	m3 := marker()
+	hdr := headerRuleFile(m3)
+	g.corpus["rules:valid-header"] = []byte(hdr)
+	var extra []int
+	for o := 1; o <= strings.Index(hdr, "version:")+len("version:")+1; o++ {
+		extra = append(extra, o) // every offset from the document start marker into the first key
+	}
+	for o := len(hdr) - 24; o < len(hdr); o++ {
+		extra = append(extra, o) // ... and through the last path expression
+	}
+	g.sweepWith(&list, kRules, "rules:valid-header", 30, map[string]string{"marker": m3}, true, extra)
 	// removed and re-created (the provider watches the directory)
 	m = marker()
 	g.add(&list, inputSpec{Kind: kRules, Class: "remove-recreate", Name: "removed-and-recreated", Data: toYAML(ruleDoc(m)), Meta: map[string]string{"marker": m, "mode": "remove-recreate"}})
 	m = marker()
 	g.add(&list, inputSpec{Kind: kRules, Class: "remove-recreate", Name: "removed-while-large-file-loads", Data: []byte(manyRulesAt(g.pick(1500, 6000), m)), Meta: map[string]string{"marker": m, "mode": "write-remove"}})
 	return list
+}
+
+// pathEscapes: lone, trailing and doubled backslashes, escapes of characters that need none, escapes at the very
+// end of the expression and next to wildcards.
+var pathEscapes = []string{
+	`/a/pe/\`, `/a/pe/\/x`, `/a/pe\`, `/a/pe/x\`, `/a/pe/\\`, `/a/pe/\\\`, `/a/pe/\x`, `/a/pe/\:`, `/a/pe/\*`, `/a/pe/\:x`, `/a/pe/\*x`,
+	`/a/pe/\**`, `/a/pe/x\:y`, `/a/pe/\:/\*/\\`, `/a/pe/\:x/\`, `/a/pe/:x\`, `/a/pe/:x/\`, `/a/pe/*x\`, `/a/pe/**\`, `/a/pe/\/\/\`, `/\`, `\`,
+}
+
+// headerRuleFile is a rule file as people write it by hand: document start marker, comment header, and - match
+// being the last property of the last rule - a path expression with an escaped wildcard at the very end.
+func headerRuleFile(marker string) string {
+	return "---\n# rule set of team a\n# rolled out by the pipeline - do not edit by hand\n" +
+		"version: \"1alpha4\"\nname: header\nrules:\n" +
+		"- id: hdr:first\n  match:\n    routes:\n      - path: " + marker + "\n  execute:\n    - authenticator: anon\n    - finalizer: noop\n" +
+		"- id: hdr:images\n  execute:\n    - authenticator: anon\n    - finalizer: noop\n  match:\n    routes:\n      - path: " + marker + "/images/\\*all"
 }
 
 func aliasBomb(levels int) string {
